@@ -473,7 +473,7 @@ func c11FailoverGuard(c *Ctx) {
 		if bo, ok := st.Val.(*ssa.BinOp); ok && bo.Op == token.REM {
 			if hasOrigin(bo.Y, func(o string) bool { return o == "len:field:FailoverGroup.stores" }) {
 				if add, ok := bo.X.(*ssa.BinOp); ok && add.Op == token.ADD && hasOrigin(add.X, func(o string) bool { return o == "field:FailoverGroup.active" }) {
-					if k, ok := add.Y.(*ssa.Const); ok && k.Int64() == 1 {
+					if k, ok := add.Y.(*ssa.Const); ok && constInt64(k) == 1 {
 						okV = true
 					}
 				}
